@@ -29,12 +29,16 @@ def _lines(trace_text):
             continue
         head, _, snap = line.partition(" | ")
         w = head.split()
+        if len(w) < 5 or not (w[2][:1] == "w" and w[2][1:].isdigit()):
+            continue                      # cut line of a crashed run
         out.append([w[0], int(w[2][1:]), w[3], w[4:], snap, None, line])
     return out
 
 
 def _snap(mline):
     m = re.match(r"M cur=\[(.*?)\] dq=\[(.*)\]$", mline)
+    if not m:
+        return "snap ?"                   # cut line of a crashed run: the driver reports a mismatch
     cur = m.group(1).split(",")
     dqs = re.findall(r"\[([^\[\]]*)\]", m.group(2))
     return "snap " + " ".join(cur) + " | " + " | ".join(dqs)
@@ -119,6 +123,8 @@ def oracle_single_place(trace_text):
         if not line.startswith("M "):
             continue
         m = re.match(r"M cur=\[(.*?)\] dq=\[(.*)\]$", line)
+        if not m:
+            continue
         cur = [c for c in m.group(1).split(",") if c.startswith("t")]
         qs = [t for q in re.findall(r"\[([^\[\]]*)\]", m.group(2)) for t in q.split()]
         allp = cur + qs
